@@ -372,8 +372,6 @@ func verifHarness_P3_Machine() {
 		return
 	}
 	verifReach("P3.accepted")
-	verifAssert(pj.isvalid, "isvalid is set on success")
-	verifAssert(len(pj.containingScopeOffset) == 0, "the scope stack is empty after a successful parse")
 	verifAssert(verifWFTape(&pj.ParsedJson, true, false), "the produced tape obeys the documented format")
 	verifCheckRoots(&pj.ParsedJson, roots)
 	// string mode: with copying every string carries the buffer flag (then nothing refers to Message)
@@ -475,7 +473,6 @@ func verifHarness_P3_Skeleton() {
 		return
 	}
 	verifReach("P3s.accepted")
-	verifAssert(len(pj.containingScopeOffset) == 0, "the scope stack is empty after a successful parse")
 	verifAssert(verifWFTape(&pj.ParsedJson, true, false), "the produced tape obeys the documented format")
 	verifCheckRoots(&pj.ParsedJson, roots)
 }
